@@ -1,5 +1,6 @@
 import FormulaeModel.Proofs.Indicator
 import FormulaeModel.Properties.C13
+import FormulaeModel.Proofs.CodingBridge
 /-
 Bridge between the two models of the contrast codings: the matrices the *evaluation model*
 (Model/Design.lean, used by C04-C06, C08, C10, C15-C17) builds for treatment coding satisfy the
@@ -52,5 +53,93 @@ constant (C13_treatment_basis applies): for every number of levels and every ref
 theorem design_treatment_basis (levels : List String) (r : Nat) (hr : r < levels.length) :
     treatmentBasis levels.length r (reducedRows levels.length r) = true :=
   (C13.C13_treatment_basis levels r _ _ hr (design_treatmentReduced levels r hr)).1
+
+/-! ### The two coding models are one function (`Proofs/CodingBridge.lean`)
+
+`Bridge.code_agree` is the full statement: for both encodings, both `spans_intercept` values, every
+option and every non-empty list of string levels the evaluation model's coding and the C13 model's
+coding return the same matrix and labels, and fail in the same cases.  The corollaries below move
+the C13 results onto the matrices the evaluation model (C04-C06, C08, C10, C15-C17) computes with. -/
+
+/-- **Agreement of the coding models** (restated here so that it is audited as a property
+theorem). -/
+theorem coding_models_agree (c : Coding.Contrast) (full : Bool) (levels : List String)
+    (hne : levels ≠ []) :
+    viewD (Design.Contrast.code (toDesign c) full (levels.map Level.s)) =
+      viewC (Coding.Contrast.code c full levels) :=
+  code_agree c full levels hne
+
+/-- premises satisfiable, result non-trivial: Sum coding of three levels omitting the second -/
+example :
+    viewD (Design.Contrast.code (toDesign (.sum (some "b"))) true (["a", "b", "c"].map Level.s)) =
+      some ([[1, 1, 0], [1, -1, -1], [1, 0, 1]], ["mean", "a", "c"]) := by decide
+
+theorem transfer {d : Design.M Design.ContrastMatrix} {c : Except Coding.Err Coding.ContrastMatrix}
+    {cm : Coding.ContrastMatrix} (h : viewD d = viewC c) (hc : c = .ok cm) :
+    ∃ cm', d = .ok cm' ∧ cm'.rows = cm.matrix ∧ cm'.labels = cm.labels := by
+  subst hc
+  cases d with
+  | error e => simp [viewD, viewC] at h
+  | ok cm' =>
+    simp only [viewD, viewC, Option.some.injEq, Prod.mk.injEq] at h
+    exact ⟨cm', rfl, h.1, h.2⟩
+
+/-- The reduced Sum coding *of the evaluation model* has the C13 shape and every column sums to
+zero, for every omitted level that is a level. -/
+theorem design_sum_zero (omitted : Option String) (levels : List String) (o : Nat)
+    (h : omitIndex? omitted levels = some o) :
+    ∃ cm, Design.sumReduced (omitted.map Level.s) (levels.map Level.s) = .ok cm ∧
+      Spec.C13.sumReduced levels o cm.rows cm.labels = true ∧
+      ∀ j, j < levels.length - 1 → colSum cm.rows levels.length j = 0 := by
+  obtain ⟨cm, hc, hs, hz⟩ := C13.C13_sum_zero omitted levels o h
+  have hne : levels ≠ [] := by
+    intro e; subst e; have := Proofs.Coding.omitIndex_lt h; simp at this
+  obtain ⟨cm', hd, hr, hl⟩ := transfer (sumReduced_agree omitted levels hne) hc
+  exact ⟨cm', hd, by rw [hr, hl]; exact hs, by rw [hr]; exact hz⟩
+
+/-- … and is a basis together with the constant (C13_sum_basis applies to it). -/
+theorem design_sum_basis (omitted : Option String) (levels : List String) (o : Nat)
+    (h : omitIndex? omitted levels = some o) :
+    ∃ cm, Design.sumReduced (omitted.map Level.s) (levels.map Level.s) = .ok cm ∧
+      sumBasis levels.length o cm.rows = true := by
+  obtain ⟨cm, hd, hs, _⟩ := design_sum_zero omitted levels o h
+  exact ⟨cm, hd, (C13.C13_sum_basis levels o cm.rows cm.labels (Proofs.Coding.omitIndex_lt h) hs).1⟩
+
+/-- The reduced Treatment coding of the evaluation model, for every reference that is a level:
+C13 shape and basis with the constant. -/
+theorem design_treatment_model (reference : Option String) (levels : List String) (r : Nat)
+    (h : referenceIndex? reference levels = some r) :
+    ∃ cm, Design.treatmentReduced (reference.map Level.s) (levels.map Level.s) = .ok cm ∧
+      Spec.C13.treatmentReduced levels r cm.rows cm.labels = true ∧
+      treatmentBasis levels.length r cm.rows = true := by
+  obtain ⟨cm, hc, hs⟩ := C13.C13_treatment_shape reference levels r h
+  have hne : levels ≠ [] := by
+    intro e; subst e; have := Proofs.Coding.referenceIndex_lt h; simp at this
+  obtain ⟨cm', hd, hr, hl⟩ := transfer (treatmentReduced_agree reference levels hne) hc
+  refine ⟨cm', hd, by rw [hr, hl]; exact hs, ?_⟩
+  rw [hr]
+  exact (C13.C13_treatment_basis levels r cm.matrix cm.labels (Proofs.Coding.referenceIndex_lt h) hs).1
+
+/-- An option naming no level is refused by the evaluation model too. -/
+theorem design_rejects (levels : List String) (hne : levels ≠ []) :
+    (∀ reference, referenceIndex? reference levels = none →
+      ∃ e, Design.treatmentReduced (reference.map Level.s) (levels.map Level.s) = .error e) ∧
+    (∀ omitted, omitIndex? omitted levels = none →
+      ∃ e, Design.sumReduced (omitted.map Level.s) (levels.map Level.s) = .error e) := by
+  constructor
+  · intro reference h
+    obtain ⟨e, he⟩ := C13.C13_treatment_rejects reference levels h
+    have := treatmentReduced_agree reference levels hne
+    rw [he] at this
+    cases hd : Design.treatmentReduced (reference.map Level.s) (levels.map Level.s) with
+    | error e' => exact ⟨e', rfl⟩
+    | ok cm => rw [hd] at this; simp [viewD, viewC] at this
+  · intro omitted h
+    obtain ⟨⟨e, he⟩, _⟩ := C13.C13_sum_rejects omitted levels h
+    have := sumReduced_agree omitted levels hne
+    rw [he] at this
+    cases hd : Design.sumReduced (omitted.map Level.s) (levels.map Level.s) with
+    | error e' => exact ⟨e', rfl⟩
+    | ok cm => rw [hd] at this; simp [viewD, viewC] at this
 
 end FormulaeModel.Bridge
